@@ -432,20 +432,11 @@ Definition forge_entrypoint (name : bytes) : bytes :=
   | None => [xff] ++ forge_array1 name
   end.
 
+(* forge.py has_parameters (after fix 31fde15): decided on the forged value, forge_micheline(value) == 03 0b *)
 Definition has_parameters (p : option (bytes * bytes)) : bool :=
   match p with
   | None => false
   | Some (ep, v) => negb (bytes_eqb ep default_name && bytes_eqb v unit_value)
-  end.
-
-(* has_parameters as it is written in forge.py: the JSON value is compared with the literal {'prim': 'Unit'}.
-   [literal] = "the JSON value is exactly that literal".  For canonical Micheline JSON (no empty "args"/"annots"
-   keys) literal = (forged value = 03 0b) and this is [has_parameters]; Unit spelled {'prim':'Unit','args':[]}
-   forges to 03 0b too but has literal = false (known finding unit-spelled-with-empty-list). *)
-Definition has_parameters_json (p : option (bytes * bytes * bool)) : bool :=
-  match p with
-  | None => false
-  | Some (ep, _, literal) => negb (bytes_eqb ep default_name && literal)
   end.
 
 Definition forge_header (tag : N) (h : header) : bytes :=
